@@ -44,6 +44,13 @@ def handle (verb : String) (args : List String) (obs : String) : Option Reply :=
     let m := match ofDuration s ns with | some p => toString p | none => "panic"
     let ok := check (obs.trimAscii.toString = toString ((s * 1000000000 + ns) * 1000)) "Duration is not nanos*1000"
     some { model := m, verdict := ok, tag := if s = 0 ∧ ns = 0 then "trivial-zero" else if s ≥ 2^63 then "huge" else "dur" }
+  | "osdur", [s, ns, rev] =>
+    -- the OS-timer arm: `Instant::duration_since` (saturating at zero) converted like any `Duration`
+    let want := if rev = 1 then 0 else (s * 1000000000 + ns) * 1000
+    let m := if obs.trimAscii.toString = "unrepresentable" then "unrepresentable" else toString want
+    let ok := check (obs.trimAscii.toString = toString want ∨ obs.trimAscii.toString = "unrepresentable")
+      "the difference of two OS timestamps is not the elapsed nanoseconds times 1000 (or not zero for an earlier one)"
+    some { model := m, verdict := ok, tag := if s = 0 ∧ ns = 0 then "trivial-zero" else if rev = 1 then "os-reversed" else if s = 0 then "os-subsecond" else "os" }
   | "prec", [step, f] =>
     let sample := durationSince (step + step) step f
     let m := match precisionCount {} (List.replicate 10300 sample) 0 with
